@@ -64,7 +64,7 @@ CLAIMED = {
          "Hook: amiquip::verif::SlotsProbe wrapping ChannelSlots<()>. The end-to-end path (Connection::open_channel) shares this table; its request/response plumbing is exercised by C04/C09/C15.",
          "DESIGN.md 4/C10"),
  "C11": ("stateful property-based testing: generated histories of consumer/channel/connection lifecycle events driven against the real client with FIFO barriers; oracle = per-consumer reference model of deliveries and the one terminal message",
-         "Exploration: histories of up to 40 events over 3 channels; every consumer queue must carry exactly the model's deliveries, then exactly one terminal naming the first cause, then disconnect; wire-level cancel accounting.",
+         "Exploration: histories of up to 40 events over 3 channels; every consumer queue must carry exactly the model's deliveries, then exactly one terminal naming the first cause, then disconnect (probed live, while the channel is still open, right after every server cancel and explicit client cancel, and again at the end of the session); wire-level cancel accounting.",
          "Single driver thread (the broker script is the only source of order); cross-thread races of cancel vs. delivery are sampled only through the drop-without-receiver variant.",
          "DESIGN.md 4/C11"),
  "C12": ("property-based testing of every public entry point: generated op programs run against the real client, decoded wire compared with an independently written expectation table; bounded-exhaustive over the 48 settle variants",
